@@ -23,7 +23,7 @@ rm -f $OUT/confirm.json
 demo=$(ls tests/seeded_${low}*_demo*.rs 2>/dev/null | head -1)
 [ -z "$demo" ] && demo=tests/seeded_${low}_demo.rs
 cp "$OUT/demo.rs" /tmp/demo_$N.rs 2>/dev/null
-git stash -q -u 2>/dev/null; git checkout -q -- . ; git clean -fdq -e target
+git checkout -q -- . ; git clean -fdq -e target
 if ! git apply --check "$OUT/patch.diff" 2>/tmp/apply_$N.err; then res $OUT applies=false; echo "$N: patch does not apply"; exit 1; fi
 res $OUT applies=true
 cp /tmp/demo_$N.rs "$demo"
